@@ -812,8 +812,11 @@ def m_max(interp, fr, *args, **kw):
             return handler(interp, "max", args[0], src)
         args = (list(args[0].run()),)
     vals = list(args[0]) if len(args) == 1 else list(args)
-    if not any(isinstance(v, Sym) for v in vals):
-        return max(vals, **kw)
+    if not any(isinstance(v, Sym) for v in vals) and not any(type(v).__name__ == "SInstantSeconds" for v in vals):
+        try:
+            return max(vals, **kw)
+        except (ValueError, TypeError) as ex:
+            raise PyRaise(type(ex), str(ex))
     cur = vals[0]
     for v in vals[1:]:
         if interp.truth(interp.compare(__import__("ast").Gt(), v, cur)):
